@@ -178,6 +178,12 @@ def plan(tier, rng, sl, nslices, stats):
     for i in range(cfg["random"]):
         if i % 8 == 0:
             yield special(rng)
+        elif i % 400 == 39:
+            yield gcfg.long_body_case(rng)
+        elif i % 400 == 79:
+            yield {"power": [rng.choice([2, 2, 3, 4]), rng.randint(5, 7)], "nv": 8, "nt": 1, "prods": [], "start": 0, "vc": "str"}
+        elif i % 400 == 119 and sl == 0:
+            yield gcfg.wide_case(rng)
         elif i % 40 == 39:
             yield gcfg.large_case(rng)
         else:
@@ -192,7 +198,40 @@ def plan(tier, rng, sl, nslices, stats):
         stats.extra["exhaustive_scopes"] = "all %d grammars with 2 variables, 2 terminals, <=3 productions of body length <=2" % tot
 
 
+def run_power(c, stats):
+    """V0 -> V1^b, V1 -> V2^b, ..., Vk -> a : exactly one word, of length b^k (64 to 256): the enumeration must not
+    give up across the long stretches of lengths without any word (judged directly, the language is known)"""
+    from pyformlang.cfg import CFG, Production, Variable, Terminal
+    b, k = c["power"]
+    while b ** k > 130:
+        k -= 1
+    vs = [Variable("V%d" % i) for i in range(k + 1)]
+    prods = {Production(vs[i], [vs[i + 1]] * b) for i in range(k)} | {Production(vs[k], [Terminal("a")])}
+    g = CFG(start_symbol=vs[0], productions=prods)
+    n = b ** k
+    stats.cls("power_grammar")
+    for bound in (None, n, n + 3, n - 1):
+        try:
+            with core.step_budget(60000000):
+                got = [tuple(x.value for x in w) for w in (g.get_words() if bound is None else g.get_words(bound))]
+        except core.StepBudgetExceeded:
+            core.LOG.count("C12.power_budget_overrun")
+            continue
+        exp = [("a",) * n] if (bound is None or bound >= n) else []
+        core.LOG.count("C12.power_words")
+        with core.oracle_mode():
+            if got != exp:
+                core.report(PROP, "get_words", "missing-word" if len(got) < len(exp) else "extra-word",
+                            {"bound": bound, "expected_length": n, "got_lengths": [len(x) for x in got][:5]},
+                            ["power_grammar"])
+    call(g.is_finite)
+    call(g.is_empty)
+    return True
+
+
 def run_case(c, stats):
+    if c.get("power"):
+        return run_power(c, stats)
     g = gcfg.build(c)
     stats.cls("vc:" + c["vc"])
     with core.oracle_mode():
@@ -243,4 +282,17 @@ def run_case(c, stats):
                 call(q)
             with core.oracle_mode():
                 judge_words(h, ref_of(h), 2)
+    if c.get("longbody"):
+        # the normal form (ten or more helper variables) extended by a new long production: enumeration again
+        from pyformlang.cfg import CFG, Production, Terminal
+        okn, nf = call(g.to_normal_form)
+        if okn:
+            s_ = g.start_symbol
+            t0_, t1_, t2_ = (Terminal(gcfg.tval(c, j)) for j in range(3))
+            ok4, g3 = call(CFG, start_symbol=s_, productions=set(nf.productions) | {Production(s_, [t0_, s_, t1_, t2_])})
+            if ok4:
+                with core.oracle_mode():
+                    r3 = ref_of(g3)
+                    for n_ in (4, 6):
+                        judge_words(g3, r3, n_)
     return len(ref.prods) >= 2 and not ref.is_empty()
